@@ -33,6 +33,7 @@ REGIONS = [
     [(20, 20), (40, 20), (40, 40), (20, 40)],                                          # 7 nested in 0
     [(30, 30), (60, 30), (60, 60), (30, 60)],                                          # 8 overlaps 0
     [(70, 70), (90, 70), (90, 90), (70, 90)],                                          # 9 disjoint
+    [(10, 60), (50, 65), (62, 98)],                                                    # 10 open triangle whose LAST vertex is its extreme point in x and in y
 ]
 LINES = [
     [(15, 29), (45, 29)],            # 0 inside the square
@@ -48,6 +49,7 @@ LINES = [
     [(22, 31), (38, 31)],            # 10 inside the nested square
     [(72, 81), (88, 81)],            # 11 inside the disjoint square
     [(12, 21), (48, 21)],            # 12 both end points (and the whole outline's vertices) inside the U, the segment crosses its notch
+    [(52, 84), (57, 91)],            # 13 inside the corner of triangle 10 next to its last vertex
 ]
 HEIGHTS = [4, 2]
 BOUNDS = {'quick': dict(max_regions=2), 'thorough': dict(max_regions=3)}
@@ -243,8 +245,10 @@ SCENARIOS = [
     {0: ([1], ['z0']), 1: ([], []), 3: ([], []), 'heights': [0, 0]},           # a detection with zero heights (the height map is clamped at 0)
     # tilted text (4 degrees), lines far enough apart that MERGE_LINES has nothing to merge: every line comes back as it was detected
     {0: ([0], ['t0', 't1', 't2']), 1: ([], []), 3: ([], []), 'nothing_to_merge': True},
+    # a stepped baseline with tall heights: the outline the library builds for it folds over itself (an invalid polygon), the line leaves the region
+    {0: ([0], ['s0', 0]), 1: ([], []), 3: ([], []), 'heights': [9, 3]},
 ]
-FRAGMENTS = {'t0': [(14, 15), (44, 17.1)], 't1': [(14, 27), (29, 28.05), (46, 29.24)], 't2': [(16, 40), (40, 41.68)],
+FRAGMENTS = {'s0': [(12, 24), (30, 24), (31, 30), (58, 30)], 't0': [(14, 15), (44, 17.1)], 't1': [(14, 27), (29, 28.05), (46, 29.24)], 't2': [(16, 40), (40, 41.68)],
              'z0': [(10, 30), (50, 30)], 'f0': [(8, 26), (14, 26.2)], 'f1': [(16, 26.2), (28, 26.6), (40, 26.2)], 'f2': [(42, 26.2), (50, 26)], 'f3': [(10, 36), (50, 36.4)]}
 
 
